@@ -362,7 +362,7 @@ def inline_new_functions(prog, known=None, max_blocks=400):
 _DEEP_MEMO = {}
 
 
-def deep_fn(prog, f, depth=2, max_blocks=160, _stack=frozenset()):
+def deep_fn(prog, f, depth=2, max_blocks=60, _stack=frozenset()):
     from . import model, analysis
     key = (id(prog), f.key, depth)
     if key in _DEEP_MEMO:
